@@ -735,6 +735,12 @@ class Visitor(ast.NodeVisitor):
         assert result is not PLACEHOLDER
 
         self.recomputed_values[node] = result
+
+        if isinstance(result, FirstExceptionInAll):
+            # The first exception is recorded only for the representation of this very node.
+            # For the enclosing expressions, the value of the call is the value Python gives, namely ``False``.
+            return False
+
         if inspect.iscoroutine(result):
             raise ValueError(
                 ("Unexpected coroutine {} as a result from a call. "
